@@ -17,6 +17,7 @@ import os
 import random
 import re
 import resource
+import shutil
 import subprocess
 import sys
 import time
@@ -331,8 +332,8 @@ def make_inputs(ctx, quick):
         b = open(p, "rb").read()
         data[p] = b
         weights.append(1.0 if len(b) < 6000 else (0.3 if len(b) < 30000 else (0.03 if len(b) < 64 * 1024 else 0.0)))
-    n_mut = 2000 if quick else 24000
-    n_raw = 300 if quick else 3000
+    n_mut = 2000 if quick else 18000
+    n_raw = 300 if quick else 2000
     n = 0
     for k in range(n_mut + n_raw):
         src = rng.choices(files, weights)[0]
@@ -642,9 +643,21 @@ def run(ctx):
     ]
     drv, mdl = build(ctx)
     ctx.log("build + drivers ready")
-    n1, h1, enum_stats, nt1, samples = math_part(ctx, drv, mdl, quick)
-    n2, h2 = pow_part(ctx, drv, mdl)
-    n3, h3, labels, stages, nt3 = pipeline_part(ctx, drv, mdl, quick)
+    # a private scratch directory per run: concurrent runs of this check must not share case / input files
+    base_wd = ctx.workdir
+    for old in os.listdir(base_wd):
+        p = os.path.join(base_wd, old)
+        if old.startswith("run") and os.path.isdir(p) and time.time() - os.path.getmtime(p) > 6 * 3600:
+            shutil.rmtree(p, ignore_errors=True)
+    ctx.workdir = os.path.join(base_wd, "run%d" % os.getpid())
+    os.makedirs(ctx.workdir, exist_ok=True)
+    try:
+        n1, h1, enum_stats, nt1, samples = math_part(ctx, drv, mdl, quick)
+        n2, h2 = pow_part(ctx, drv, mdl)
+        n3, h3, labels, stages, nt3 = pipeline_part(ctx, drv, mdl, quick)
+    finally:
+        shutil.rmtree(ctx.workdir, ignore_errors=True)
+        ctx.workdir = base_wd
     ctx.cov["evaluations"] = n1 + n2 + n3
     ctx.cov["distinct_nontrivial"] = nt1 + nt3
     ctx.cov["rule"] = ("math contract: every tree of MathDefs.enum_d1 (depth<=1, 25 leaves, <=3 children: %s trees) and of the depth-2/3 sets is "
